@@ -74,6 +74,7 @@ fn p1_alphabet(n: usize, tier: Tier) -> Vec<Dev> {
         }));
     }
     d.extend(crate::devs::rich_generic_devs(true));
+    d.extend(crate::devs::context_devs());
     d.extend(crate::devs::syntax_devs(true, false, true, false));
     d
 }
@@ -235,6 +236,14 @@ fn p2_programs(tier: Tier) -> Vec<Program> {
                 v.to_string = Some(l.clone());
                 spec.variants.push(v);
             }
+            let mentions_lifetime = match &kind {
+                Kind::Tuple(fs) => fs.iter().any(|f| f.ty().contains("'a")),
+                Kind::Named(fs) => fs.iter().any(|f| f.ty.ty().contains("'a")),
+                Kind::Unit => false,
+            };
+            if mentions_lifetime {
+                spec.generics = vec![Generic::Lifetime { name: "a".into() }];
+            }
             let source = render_p2(&spec);
             out.push(Program { idx: 0, label: format!("P2 {} #{} ({} literals)", label, ci, chunk.len()), k: 1, spec, aux: json!({"p2": true}), source });
         }
@@ -246,6 +255,13 @@ fn p2_programs(tier: Tier) -> Vec<Program> {
     ]);
     pack("named{x,y,z}", named, literals(&["x", "y", "z"], if th { 3 } else { 2 }, false, th), &mut out);
     pack("named{f}", Kind::Named(vec![NamedField { name: "f".into(), ty: FieldTy::U8, default_with: false }]), literals(&["f"], 2, false, true), &mut out);
+    // a field declared with a raw identifier is named by the identifier it stands for (`{type}`), as in format!
+    pack(
+        "named{r#type, r#fn}",
+        Kind::Named(vec![NamedField { name: "r#type".into(), ty: FieldTy::U8, default_with: false }, NamedField { name: "r#fn".into(), ty: FieldTy::SStr, default_with: false }]),
+        literals(&["type", "fn"], 2, false, false),
+        &mut out,
+    );
     pack("tuple1", Kind::Tuple(vec![FieldTy::U8]), literals(&["0"], if th { 3 } else { 2 }, true, true), &mut out);
     pack("tuple2", Kind::Tuple(vec![FieldTy::I32, FieldTy::SStr]), literals(&["0", "1"], if th { 4 } else { 3 }, true, th), &mut out);
     pack("tuple3", Kind::Tuple(vec![FieldTy::U8, FieldTy::I32, FieldTy::SStr]), literals(&["0", "1", "2"], if th { 4 } else { 3 }, true, false), &mut out);
@@ -266,6 +282,15 @@ fn p2_programs(tier: Tier) -> Vec<Program> {
             NamedField { name: "p".into(), ty: us.clone(), default_with: false },
         ]),
         ["{s:>w$}", "{s:.p$}", "{s:>w$.p$}", "{w}{s:^w$}", "{s:w$}|{p}", "{s:-<w$}{s:.p$}"].iter().map(|s| s.to_string()).collect(),
+        &mut out,
+    );
+    // fields that are mutable references (the arm must bind them by reference, not move them out of `&self`)
+    let mr = FieldTy::Raw("&'a mut u8".into(), "0".into());
+    pack("tuple(&'a mut u8, i32)", Kind::Tuple(vec![mr.clone(), FieldTy::I32]), ["{0}/{1}", "{1:>4}{0:03}", "{0:?} {1}"].iter().map(|s| s.to_string()).collect(), &mut out);
+    pack(
+        "named{m: &'a mut u8, s: &'a str} incl. fixed names",
+        Kind::Named(vec![NamedField { name: "m".into(), ty: mr.clone(), default_with: false }, NamedField { name: "s".into(), ty: FieldTy::LStr, default_with: false }]),
+        ["{m}{s}", "{s}", "fixed name", "{m:>4}|{s:<3}|"].iter().map(|s| s.to_string()).collect(),
         &mut out,
     );
     // SCALE: 12 fields — two-digit positional indices, field names that are prefixes / extensions of one another.
@@ -306,6 +331,10 @@ fn payload_expr(ty: &FieldTy, j: usize) -> String {
         (FieldTy::I32, _) => "i32::MAX".into(),
         (FieldTy::SStr, 0) => "\"\"".into(),
         (FieldTy::SStr, _) => "\"é{q}\"".into(),
+        (FieldTy::Raw(t, _), 0) if t == "&'a mut u8" => "&mut 0u8".into(),
+        (FieldTy::Raw(t, _), _) if t == "&'a mut u8" => "&mut 255u8".into(),
+        (FieldTy::LStr, 0) => "\"\"".into(),
+        (FieldTy::LStr, _) => "\"é{q}\"".into(),
         (FieldTy::Raw(t, _), 0) if t == "usize" => "0usize".into(),
         (FieldTy::Raw(t, _), _) if t == "usize" => "7usize".into(),
         _ => "Default::default()".into(),
@@ -357,7 +386,7 @@ fn render_p2(spec: &EnumSpec) -> String {
                     let vals: Vec<String> = fs.iter().map(|f| payload_expr(&f.ty, j)).collect();
                     let ctor = render_ctor(spec, i, &vals);
                     let used = used_names(v.to_string.as_ref().unwrap());
-                    let args: Vec<String> = fs.iter().zip(&vals).filter(|(f, _)| used.contains(&f.name)).map(|(f, e)| format!("{} = {}", f.name, e)).collect();
+                    let args: Vec<String> = fs.iter().zip(&vals).filter(|(f, _)| used.iter().any(|u| u == crate::spec::unraw(&f.name))).map(|(f, e)| format!("{} = {}", f.name, e)).collect();
                     o.push_str(&format!("    obs.push(({i}, {j}, vf_core::guard(|| {ctor}.to_string()), format!({lit}, {args})));\n", i = i, j = j, ctor = ctor, lit = lit_s, args = args.join(", ")));
                 }
                 Kind::Tuple(fs) => {
